@@ -36,6 +36,8 @@ pub fn weight(scheme: u8, entry: usize, k: usize) -> i32 {
     match scheme {
         0 | 1 => (h % 60001) as i32 - 30000,
         2 => (h % 5) as i32 - 2,
+        // 4: 32-bit magnitudes (the model stores i32 weights); 20 simultaneous contributions stay inside i32
+        4 => [1 << 26, -(1 << 26), (1 << 25) + 1, 30_000_000, 0, 1, -1, -(1 << 25) - 7][(h % 8) as usize],
         _ => match h % 4 {
             0 => 32767,
             1 => -32768,
